@@ -183,7 +183,9 @@ func InstrMethodKey(instr ssa.CallInstruction) fn.Optional[string] {
 	return fn.None[string]()
 }
 
-// FnReadsFrom returns true if an instruction in fn reads from val.
+// FnReadsFrom returns true if an instruction in fn reads from val, i.e. val is an operand of some instruction in fn
+// other than the destination of a write (the address of a store, the map of a map update or the channel of a send;
+// see FnWritesTo for those).
 //
 //gocyclo:ignore
 func FnReadsFrom(fn *ssa.Function, val ssa.Value) bool {
@@ -196,6 +198,18 @@ func FnReadsFrom(fn *ssa.Function, val ssa.Value) bool {
 				}
 			case *ssa.BinOp:
 				if instr.X == val || instr.Y == val {
+					return true
+				}
+			case *ssa.Call:
+				if callCommonReadsFrom(&instr.Call, val) {
+					return true
+				}
+			case *ssa.Go:
+				if callCommonReadsFrom(&instr.Call, val) {
+					return true
+				}
+			case *ssa.Defer:
+				if callCommonReadsFrom(&instr.Call, val) || instr.DeferStack == val {
 					return true
 				}
 			case *ssa.Store:
@@ -211,7 +225,7 @@ func FnReadsFrom(fn *ssa.Function, val ssa.Value) bool {
 					return true
 				}
 			case *ssa.MapUpdate:
-				if instr.Value == val {
+				if instr.Key == val || instr.Value == val {
 					return true
 				}
 			case *ssa.Send:
@@ -226,7 +240,106 @@ func FnReadsFrom(fn *ssa.Function, val ssa.Value) bool {
 				if instr.X == val {
 					return true
 				}
+			case *ssa.Index:
+				if instr.X == val || instr.Index == val {
+					return true
+				}
+			case *ssa.IndexAddr:
+				if instr.X == val || instr.Index == val {
+					return true
+				}
+			case *ssa.Lookup:
+				if instr.X == val || instr.Index == val {
+					return true
+				}
+			case *ssa.Slice:
+				if instr.X == val || instr.Low == val || instr.High == val || instr.Max == val {
+					return true
+				}
 			case *ssa.Convert:
+				if instr.X == val {
+					return true
+				}
+			case *ssa.MultiConvert:
+				if instr.X == val {
+					return true
+				}
+			case *ssa.ChangeType:
+				if instr.X == val {
+					return true
+				}
+			case *ssa.ChangeInterface:
+				if instr.X == val {
+					return true
+				}
+			case *ssa.SliceToArrayPointer:
+				if instr.X == val {
+					return true
+				}
+			case *ssa.MakeInterface:
+				if instr.X == val {
+					return true
+				}
+			case *ssa.TypeAssert:
+				if instr.X == val {
+					return true
+				}
+			case *ssa.Extract:
+				if instr.Tuple == val {
+					return true
+				}
+			case *ssa.Range:
+				if instr.X == val {
+					return true
+				}
+			case *ssa.Next:
+				if instr.Iter == val {
+					return true
+				}
+			case *ssa.MakeClosure:
+				if instr.Fn == val {
+					return true
+				}
+				for _, binding := range instr.Bindings {
+					if binding == val {
+						return true
+					}
+				}
+			case *ssa.MakeChan:
+				if instr.Size == val {
+					return true
+				}
+			case *ssa.MakeMap:
+				if instr.Reserve == val {
+					return true
+				}
+			case *ssa.MakeSlice:
+				if instr.Len == val || instr.Cap == val {
+					return true
+				}
+			case *ssa.Phi:
+				for _, edge := range instr.Edges {
+					if edge == val {
+						return true
+					}
+				}
+			case *ssa.Select:
+				for _, state := range instr.States {
+					if state.Chan == val || state.Send == val {
+						return true
+					}
+				}
+			case *ssa.Return:
+				for _, result := range instr.Results {
+					if result == val {
+						return true
+					}
+				}
+			case *ssa.If:
+				if instr.Cond == val {
+					return true
+				}
+			case *ssa.Panic:
 				if instr.X == val {
 					return true
 				}
@@ -234,6 +347,19 @@ func FnReadsFrom(fn *ssa.Function, val ssa.Value) bool {
 		}
 	}
 
+	return false
+}
+
+// callCommonReadsFrom returns true if val is the called value or one of the arguments of the call.
+func callCommonReadsFrom(call *ssa.CallCommon, val ssa.Value) bool {
+	if call.Value == val {
+		return true
+	}
+	for _, arg := range call.Args {
+		if arg == val {
+			return true
+		}
+	}
 	return false
 }
 
